@@ -167,7 +167,14 @@ fn case(t0: &mut Tape, w: &Worker) -> CaseResult {
             let rdhs: Vec<Rdh> = walked.iter().map(|x| x.rdh.clone()).collect();
             let pickr = rdhs[ot.below(rdhs.len())].clone();
             for f in [Filter::Link(pickr.link_id), Filter::Fee(pickr.fee_id), Filter::Stave(pickr.layer(), pickr.stave())] {
-                // the first matching packet becomes the first analysed one: it must carry a usable system id
+                // the first matching packet becomes the first analysed one: it must carry a known system id,
+                // otherwise processing stops with a fatal message by design
+                if let Some(first) = rdhs.iter().find(|r| f.matches(r)) {
+                    if !KNOWN_SYSTEM_IDS.contains(&first.system_id) {
+                        out.excluded.push("filter whose first matching packet has an unknown system id (fatal stop by design)".into());
+                        continue;
+                    }
+                }
                 let (fref, _) = sequential_reference(&bytes, mode, &|r| f.matches(r)).map_err(|p| Fail::new("C06:inproc-panic", p, json!({})))?;
                 let (fspec, fgot) = cli_errors(&mut case, w, mode, &f.args(), !stdin)?;
                 if fgot != fref {
